@@ -4,6 +4,7 @@ import (
 	"context"
 	"io"
 	"math/rand/v2"
+	"sync"
 
 	"github.com/glebziz/fs_db/internal/model"
 )
@@ -48,6 +49,8 @@ type UseCase struct {
 
 	idGen   generator
 	randGen *rand.Rand
+	// randM guards randGen: a *rand.Rand is not safe for concurrent use.
+	randM sync.Mutex
 }
 
 func New(
